@@ -12,29 +12,43 @@ Proof.
   apply str_eqb_eq in H1. apply L in H2, H3, H4. subst. reflexivity.
 Qed.
 
+Lemma path_eqb_sym a b : path_eqb a b = path_eqb b a.
+Proof. unfold path_eqb. revert b. induction a as [|x a IH]; destruct b as [|y b]; cbn; auto. rewrite N.eqb_sym, IH. reflexivity. Qed.
+
+(* an accepted version_path is a configured location, hence a directory that a reload scans *)
+Theorem accepted_is_scanned rec locs p : accept_path locs p = true -> scanned rec locs p = true.
+Proof.
+  unfold accept_path, scanned. rewrite !existsb_exists. intros [l [Hl E]]. exists l. split; [exact Hl|].
+  rewrite path_eqb_sym, E. reflexivity.
+Qed.
+
 Theorem decider_sound : forall i o, check_C17 i o = true -> C17_holds i o.
 Proof.
   induction i as [|s i IH]; destruct o as [|x o]; cbn [check_C17]; try discriminate; intros H; [constructor|].
   apply andb_true_iff in H. destruct H as [Hs Hr]. constructor; [|apply IH; exact Hr].
-  unfold check_step in Hs. rewrite !andb_true_iff in Hs. destruct Hs as [[[H1 H2] H3] H4].
-  unfold step_holds. destruct (read_header (so_header x)) as [f|]; [|discriminate]. apply fields_eqb_eq in H1. subst f.
-  split; [reflexivity|]. split; [exact H2|]. split; [exact H3|].
+  unfold check_step in Hs. unfold step_holds. destruct (so_rejected x). { apply negb_true_iff in Hs. exact Hs. }
+  rewrite !andb_true_iff in Hs. destruct Hs as [[[[H0 H1] H2] H3] H4].
+  destruct (read_header (so_header x)) as [f|]; [|discriminate]. apply fields_eqb_eq in H1. subst f.
+  split; [exact H0|]. split; [reflexivity|]. split; [exact H2|]. split; [exact H3|].
   destruct (so_views x) as [[a b]|]; [|discriminate]. exists a, b. auto.
 Qed.
 
-Lemma model_steps_holds : forall l G L, load G = MOk L -> wf_hist_from G (map s_rev l) = true -> forallb step_class l = true ->
+Lemma model_steps_holds : forall l G L, load G = MOk L -> wf_hist_from G (map s_rev (filter accepts l)) = true -> forallb step_class l = true ->
   C17_holds l (model_steps (MOk L) G l).
 Proof.
   induction l as [|s l IH]; intros G L HL W C; [constructor|].
-  cbn [map wf_hist_from] in W. apply andb_true_iff in W. destruct W as [W1 W2].
   cbn [forallb] in C. apply andb_true_iff in C. destruct C as [C1 C2].
+  cbn [model_steps filter] in *. destruct (accepts s) eqn:A; cbn [negb].
+  2:{ constructor; [unfold step_holds; reflexivity|]. apply IH; assumption. }
+  cbn [map wf_hist_from] in W. apply andb_true_iff in W. destruct W as [W1 W2].
   unfold step_class in C1. rewrite !andb_true_iff in C1. destruct C1 as [[[[V1 V2] V3] V4] V5].
-  cbn [model_steps model_step].
+  cbn [model_step].
   pose proof (incremental G (s_rev s) L HL W1) as INC.
   destruct (add_revision_ok G (s_rev s) L HL W1) as [L' HL'].
   rewrite (docstring_safe _ [] V5). cbn [so_module_ok]. rewrite HL'. rewrite <- INC, HL'. cbn [res_view].
   constructor.
-  - unfold step_holds. cbn [so_header so_loaded so_module_ok so_views].
+  - unfold step_holds. cbn [so_header so_loaded so_module_ok so_views so_rejected so_dir].
+    split; [apply accepted_is_scanned; exact A|].
     split; [apply header_roundtrip; assumption|]. split; [reflexivity|]. split; [reflexivity|].
     exists (view_of L'), (view_of L'). split; [reflexivity|]. apply view_eqb_refl.
     rewrite INC in HL'. apply (load_ids_nodup _ _ HL').
